@@ -41,7 +41,7 @@
 (*                as read: Bytes() may cut a rune in half and the JSON     *)
 (*                encoder expands the rest to U+FFFD, line > MaxLen        *)
 (***************************************************************************)
-EXTENDS Integers, Sequences, FiniteSets, SequencesExt, TLC
+EXTENDS Integers, Sequences, FiniteSets, SequencesExt, TLC, Json
 
 CONSTANTS MaxLen, FixSanitise, MaxUser, FixUtf8
 
@@ -585,6 +585,8 @@ Frames == <<
 >>
 
 FrameIds == {Frames[i].id : i \in DOMAIN Frames}
+\* the replay driver (checks/c15.py) takes the frames, alphabets and sender states from here
+ASSUME PrintT(<<"FRAMES", ToJson([frames |-> Frames, alpha |-> Alpha, kinds |-> [k \in Kinds |-> KindState(k)]])>>)
 
 Steps(f, xx) == <<[op |-> f.op, data |-> f.pre \o xx \o f.post]>> \o f.follow
 
